@@ -163,7 +163,7 @@ func min2(a, b int) int {
 }
 
 func checkC08(r *mon.Run) {
-	r.Rule = "near-miss inputs derived from valid streams (C07 generator sample + captures): every truncation point, each u32 header field of each list set to 24 boundary values, ListSize off by ±1/7/15, unsupported/unknown/swapped type GUIDs, 1..40 bytes of trailing garbage/zeros, random bytes; oracle: err==nil ⇒ reference accepts the input, the lists equal the reference decode, and every byte was consumed; distinct = (base kind, mutation kind, field, value class)"
+	r.Rule = "near-miss inputs derived from valid streams (C07 generator sample + captures): every truncation point, each u32 header field of each list set to 24 boundary values, ListSize off by ±1/7/15, unsupported/unknown/swapped type GUIDs, 1..40 bytes of trailing garbage/zeros, random bytes, entries of 64..200 KiB cut at round numbers of their data bytes (k·4096, k·32768, k·65536, ±1); oracle: err==nil ⇒ reference accepts the input, the lists equal the reference decode, and every byte was consumed; distinct = (base kind, mutation kind, field, value class)"
 	r.Assume("errors are always acceptable here (C07 owns 'must succeed'); crashes and allocation are judged by C14; calls run in a sandboxed child process")
 	var muts []eslMut
 	for _, c := range eslCaptures() {
